@@ -77,6 +77,13 @@ async fn handle_http_proxy_connection(
 
     if request.is_connect {
         send_connect_success(&mut client_conn).await?;
+        // Bytes the client sent right behind the CONNECT header (same segment) were read
+        // together with it: they belong to the tunnel.
+        if !request.body.is_empty() {
+            session
+                .write_data_frame(proxy_stream.id(), Bytes::from(request.body.clone()))
+                .await?;
+        }
     } else {
         let request_bytes = build_forward_request(&request)?;
         session
